@@ -95,11 +95,7 @@ pub fn run_c11(seed: u64, run: u64, config: &str, stats: &mut Stats) -> (Vec<Vio
     let mut local = Stats::new();
     let res = guarded(|| {
         let mut w = world::World::new(rs, config);
-        if crate::runner::tracing() {
-            // crashes cannot be caught: announce the history as it grows
-            // (trace mode only; one line per run is enough for netsim because
-            // the whole history is replayed)
-        }
+        crate::runner::announce_case_header(&pool_case(&[], &[]));
         let r = w.run(&mut local);
         (w, r)
     });
